@@ -382,7 +382,7 @@ pub fn gen_case(seed: u64, shard: u64, run: u64, t: &Tier) -> Option<Case> {
     let k = CellKnobs {
         tool_p: 0.7,
         base_p: 0.7,
-        max_env: 3,
+        max_env: if knobs.chance(0.06) { 12 } else { 3 },
         max_sub: t.max_sub,
         limits: if knobs.chance(0.3) { LimitKind::None } else if knobs.chance(0.5) { LimitKind::Narrow } else { LimitKind::Wide },
         ctor: Ctor::Direct,
@@ -390,7 +390,7 @@ pub fn gen_case(seed: u64, shard: u64, run: u64, t: &Tier) -> Option<Case> {
         sparse: knobs.chance(0.7),
     };
     let mut cell = gen::gen_robot(&mut w, &k);
-    cell.safety = gen::gen_safety(&mut w, cell.tool.is_some(), cell.base.is_some(), 3, false, k.sparse);
+    cell.safety = gen::gen_safety(&mut w, cell.tool.is_some(), cell.base.is_some(), k.max_env, false, k.sparse);
     if cell.safety.mode == Mode::NoCheck {
         cell.safety.mode = Mode::First;
     }
